@@ -92,3 +92,69 @@ def AEv.apply (ue : Bool) (a : ASt ν) : AEv ν → ASt ν
 def runA (ue : Bool) (a : ASt ν) (evs : List (AEv ν)) : ASt ν := evs.foldl (AEv.apply ue) a
 
 end Ldk.Fs
+
+namespace Ldk.Fs
+open Ldk.Kv Ldk.Persist Ldk.FsConsts
+variable {ν : Type}
+
+/-! ### more fault kinds: failure BEFORE the lock, failure of the directory fsync AFTER the rename / unlink -/
+
+/-- `early`: write_version fails before `execute_locked_write` (tmp create / write_all / sync_all): returns Err
+    at once — no file operation took effect (a created tmp file is removed again), the tmp counter advanced,
+    the lock reference is dropped WITHOUT clean_locks (the map entry and its version stay). A remove has no
+    such part: it runs normally.
+    `dirSync`: the LAST step of the callback fails — opening / syncing the parent directory after the rename
+    (write) or the unlink (non-lazy remove of a present key) already happened: the call returns Err although
+    the effect IS on disk, and (lockedWrite) the version is not recorded. -/
+inductive FKind where
+  | none | cb | early | dirSync
+  deriving DecidableEq
+
+def isDirSync : FOp ν → Bool
+  | .fsyncDir _ _ => true
+  | _ => false
+
+/-- mirrors the early `return Err(..)` paths of write_version -/
+def execE (st : St ν) (x : Pending ν) : St ν × Bool :=
+  match x.body with
+  | .write _ =>
+    let l := lockOf st x.dest
+    ({ st with tmpCounter := st.tmpCounter + 1, locks := st.locks.put x.dest ⟨l.lastWritten, l.refs - 1⟩ }, false)
+  | .remove _ => execF st x false
+
+/-- the callback runs completely except that its final directory fsync fails (if it has one) -/
+def execD (st : St ν) (x : Pending ν) : St ν × Bool :=
+  let l := lockOf st x.dest
+  let r := lockedWrite x.version l.lastWritten (!(bodyOps st x).any isDirSync)
+  ({ st with fs := applyOps st.fs (bodyOps st x),
+             tmpCounter := (match x.body with | .write _ => st.tmpCounter + 1 | .remove _ => st.tmpCounter),
+             locks := if l.refs ≤ 1 then st.locks.del x.dest else st.locks.put x.dest ⟨r.2, l.refs - 1⟩ },
+   r.1)
+
+def execK (st : St ν) (x : Pending ν) : FKind → St ν × Bool
+  | .none => execF st x false
+  | .cb => execF st x true
+  | .early => execE st x
+  | .dirSync => execD st x
+
+/-- histories with all fault kinds; `all` = every operation issued so far -/
+inductive KEv (ν : Type) where
+  | call (op : KvOp ν)
+  | complete (version : Nat) (k : FKind)
+
+structure KSt (ν : Type) where
+  st : St ν
+  pend : List (Pending ν) := []
+  all : List (Pending ν) := []
+
+def KEv.apply (ue : Bool) (a : KSt ν) : KEv ν → KSt ν
+  | .call op => match mutOf ue op with
+      | some (d, b) => let i := issue a.st d b; { st := i.1, pend := i.2 :: a.pend, all := i.2 :: a.all }
+      | none => a
+  | .complete v k => match pickV v a.pend with
+      | none => a
+      | some (x, rest) => { a with st := (execK a.st x k).1, pend := rest }
+
+def runK (ue : Bool) (a : KSt ν) (evs : List (KEv ν)) : KSt ν := evs.foldl (KEv.apply ue) a
+
+end Ldk.Fs
